@@ -24,6 +24,11 @@
 (* "gone" (Put dropped or closed it at once).  A caller only puts          *)
 (* connections it owns (fresh or out).                                     *)
 (*                                                                         *)
+(* The constants FixUnlink / FixOwnList select variants of the algorithm in  *)
+(* which the two defects below are repaired (an entry is unlinked at most  *)
+(* once; Put never deletes the list of its own key); the check sets them   *)
+(* to what the tree under test implements.                                 *)
+(*                                                                         *)
 (* route : how the state left the part of the state space in which the     *)
 (*         lists are consistent (the known defect shapes); anom : which    *)
 (*         statement of the property is false in this state or was         *)
@@ -42,7 +47,10 @@ CONSTANTS Keys,        \* set of keys (integers)
           AfterClose,  \* BOOLEAN: the pool may be used after Pool.Close
           MaxEnv,      \* bound on environment steps
           MaxTakes,    \* bound on Take calls
-          Hist         \* BOOLEAN: keep the history and emit it at terminal states
+          Hist,        \* BOOLEAN: keep the history and emit it at terminal states
+          FixUnlink,   \* BOOLEAN: variant of the code in which an entry is unlinked at most once (entry flag set by
+                       \*          whoever unlinks it and by Pool.Close; the call-back's removeEntry returns if set)
+          FixOwnList   \* BOOLEAN: variant in which Put's global eviction does not delete the per-key list of the key being put
 
 Conns == 1..NConns
 Ents  == 1..MaxPuts
@@ -51,6 +59,7 @@ VARIABLES cf,                \* the Options of this pool: [cap, kcap, exp]
           n,                 \* entries created so far: ids 1..n in put order
           ekey, econn, egen, \* per entry: key, connection, number of Pool.Close calls before it was put
           gn, gp, ln, lp,    \* per entry: global.next, global.prev, local.next, local.prev (0 = nil)
+          ul,                \* per entry: the "unlinked" flag of the FixUnlink variant (FALSE otherwise)
           ub,                \* per entry: "" | "Take" | "Evict": who unlinked it after its timer had fired
           tm,                \* per entry: "none" (no expiration) | "armed" | "firedClosing" | "firedRemoving" | "stopped" | "done"
           ord,               \* p.order: [head, tail, count]
@@ -63,8 +72,8 @@ VARIABLES cf,                \* the Options of this pool: [cap, kcap, exp]
           last,              \* label and result of the last action
           hist
 
-vars == <<cf, n, ekey, econn, egen, gn, gp, ln, lp, ub, tm, ord, lst, cs, gen, puts, takes, envn, pn, route, anom, last, hist>>
-view == <<cf, n, ekey, econn, egen, gn, gp, ln, lp, ub, tm, ord, lst, cs, gen, puts, takes, envn, pn, route, anom, last>>
+vars == <<cf, n, ekey, econn, egen, gn, gp, ln, lp, ul, ub, tm, ord, lst, cs, gen, puts, takes, envn, pn, route, anom, last, hist>>
+view == <<cf, n, ekey, econn, egen, gn, gp, ln, lp, ul, ub, tm, ord, lst, cs, gen, puts, takes, envn, pn, route, anom, last>>
 
 Capacity == cf.cap
 KeyCapacity == cf.kcap
@@ -104,13 +113,17 @@ Linked(L, nx, e) == \E i \in 1..Len(Walk(L, nx)) : Walk(L, nx)[i] = e
 (***************************************************************************)
 (* the machine state threaded through the sequential code of one action    *)
 (***************************************************************************)
-Mk == [ord |-> ord, lk |-> lst, gn |-> gn, gp |-> gp, ln |-> ln, lp |-> lp, ub |-> ub, tm |-> tm, cs |-> cs,
+Mk == [ord |-> ord, lk |-> lst, gn |-> gn, gp |-> gp, ln |-> ln, lp |-> lp, ul |-> ul, ub |-> ub, tm |-> tm, cs |-> cs,
        det |-> FALSE, ol |-> AbsentList, pn |-> "", rt |-> route, an |-> anom]
 
 UnlinkGlobal(M, e) == LET r == RemoveL(M.ord, M.gn, M.gp, e)
                       IN [M EXCEPT !.ord = r.L, !.gn = r.nx, !.gp = r.pv]
 UnlinkLocal(M, k, e) == LET r == RemoveL(M.lk[k], M.ln, M.lp, e)
                         IN [M EXCEPT !.lk[k] = r.L, !.ln = r.nx, !.lp = r.pv]
+
+\* the two removeEntry calls that always come together
+Unlink(M, k, e) == LET M1 == UnlinkGlobal(UnlinkLocal(M, k, e), e)
+                   IN IF FixUnlink THEN [M1 EXCEPT !.ul[e] = TRUE] ELSE M1
 
 \* the pool calls val.Close()
 PoolCloses(M, c) == [M EXCEPT !.cs[c].closed = TRUE, !.cs[c].calls = @ + 1,
@@ -135,8 +148,7 @@ KeyLoop(M, k) ==
   ELSE LET e  == M.lk[k].head
            M0 == IF Fired(M.tm[e]) THEN [M EXCEPT !.ub[e] = "Evict"] ELSE M
            M1 == CloseEntry(M0, e)
-           M2 == UnlinkLocal(M1, k, e)
-           M3 == UnlinkGlobal(M2, e)
+           M3 == Unlink(M1, k, e)
        IN KeyLoop(M3, k)
 
 RECURSIVE CapLoop(_, _)
@@ -149,11 +161,11 @@ CapLoop(M, k) ==
            M0 == IF Fired(M.tm[e]) THEN [M EXCEPT !.ub[e] = "Evict"] ELSE M
            M1 == CloseEntry(M0, e)
        IN IF isnil THEN Panic(M1, "Put: nil per-key list in the global eviction")
-          ELSE LET M2 == UnlinkLocal(M1, k2, e)
-                   M3 == UnlinkGlobal(M2, e)
+          ELSE LET M3 == Unlink(M1, k2, e)
                    M4 == IF M3.lk[k2].count # 0 THEN M3
                          ELSE IF k2 = k     \* delete(p.entries, key) of the list Put itself still uses
-                              THEN [M3 EXCEPT !.det = TRUE, !.ol = M3.lk[k], !.lk[k] = AbsentList]
+                              THEN IF FixOwnList THEN M3 ELSE
+                                   [M3 EXCEPT !.det = TRUE, !.ol = M3.lk[k], !.lk[k] = AbsentList]
                               ELSE [M3 EXCEPT !.lk[k2] = AbsentList]
                IN CapLoop(M4, k)
 
@@ -178,7 +190,7 @@ TakeLoop(M, k, e, fuel) ==
   ELSE IF fuel = 0 THEN [M |-> Panic(M, "Take: endless loop"), ret |-> 0]
   ELSE IF M.cs[econn[e]].blocked THEN TakeLoop(M, k, M.ln[e], fuel - 1)
   ELSE LET M0 == IF Fired(M.tm[e]) THEN [M EXCEPT !.ub[e] = "Take"] ELSE M
-           M2 == UnlinkGlobal(UnlinkLocal(M0, k, e), e)
+           M2 == Unlink(M0, k, e)
            stop == M2.tm[e] = "armed"
            M3 == IF stop THEN [M2 EXCEPT !.tm[e] = "stopped"] ELSE M2
        IN IF M.tm[e] # "none" /\ ~stop THEN TakeLoop(M3, k, M3.ln[e], fuel - 1)
@@ -192,7 +204,8 @@ RECURSIVE CloseWalk(_, _, _)
 CloseWalk(M, e, fuel) ==
   IF e = 0 THEN M
   ELSE IF fuel = 0 THEN Panic(M, "Close: endless loop")
-  ELSE CloseWalk(CloseEntry(M, e), M.gn[e], fuel - 1)
+  ELSE LET M1 == CloseEntry(M, e)
+       IN CloseWalk(IF FixUnlink THEN [M1 EXCEPT !.ul[e] = TRUE] ELSE M1, M.gn[e], fuel - 1)
 
 (***************************************************************************)
 (* the property, evaluated on a machine state                              *)
@@ -210,7 +223,7 @@ Pending == \E e \in 1..n : tm[e] \in {"armed", "firedClosing", "firedRemoving"}
 
 Install(M, lbl) ==
   /\ ord' = M.ord /\ lst' = M.lk /\ gn' = M.gn /\ gp' = M.gp /\ ln' = M.ln /\ lp' = M.lp
-  /\ ub' = M.ub /\ tm' = M.tm /\ cs' = M.cs /\ pn' = M.pn /\ route' = M.rt
+  /\ ul' = M.ul /\ ub' = M.ub /\ tm' = M.tm /\ cs' = M.cs /\ pn' = M.pn /\ route' = M.rt
   /\ anom' = M.an \cup Bounds(M)
   /\ last' = lbl
   /\ hist' = IF Hist
@@ -295,12 +308,13 @@ ExpiryRemove(e) ==
   /\ UNCHANGED <<n, ekey, econn, egen, gen, puts, takes, envn>>
   /\ LET k == ekey[e]
          M0 == [Mk EXCEPT !.tm[e] = "done"]
-     IN IF ~lst[k].in THEN Install(M0, Lbl("ExpiryRemove", k, econn[e], e, "nolist"))
+     IN IF FixUnlink /\ ul[e] THEN Install(M0, Lbl("ExpiryRemove", k, econn[e], e, "gone"))
+        ELSE IF ~lst[k].in THEN Install(M0, Lbl("ExpiryRemove", k, econn[e], e, "nolist"))
         ELSE LET M1 == IF egen[e] < gen THEN Mark(M0, "AfterClose")
                        ELSE IF ub[e] = "Take" THEN Mark(M0, "TakeFired")
                        ELSE IF ub[e] = "Evict" THEN Mark(M0, "EvictFired")
                        ELSE M0
-                 M2 == UnlinkGlobal(UnlinkLocal(M1, k, e), e)
+                 M2 == Unlink(M1, k, e)
                  M3 == IF M2.lk[k].count = 0 THEN [M2 EXCEPT !.lk[k] = AbsentList] ELSE M2
              IN Install(M3, Lbl("ExpiryRemove", k, econn[e], e, "removed"))
 
@@ -320,7 +334,7 @@ Init ==
   /\ n = 0
   /\ ekey = [e \in Ents |-> 0] /\ econn = [e \in Ents |-> 0] /\ egen = [e \in Ents |-> 0]
   /\ gn = [e \in Ents |-> 0] /\ gp = [e \in Ents |-> 0] /\ ln = [e \in Ents |-> 0] /\ lp = [e \in Ents |-> 0]
-  /\ tm = [e \in Ents |-> "none"] /\ ub = [e \in Ents |-> ""]
+  /\ tm = [e \in Ents |-> "none"] /\ ub = [e \in Ents |-> ""] /\ ul = [e \in Ents |-> FALSE]
   /\ ord = [head |-> 0, tail |-> 0, count |-> 0]
   /\ lst = [k \in Keys |-> AbsentList]
   /\ cs = [c \in Conns |-> [closed |-> FALSE, blocked |-> FALSE, calls |-> 0, own |-> "fresh"]]
@@ -371,6 +385,9 @@ Consistent ==
 
 \* the property holds unless one of the recorded routes was taken
 Safe == (anom \cup FinalAnom) # {} => route # {}
+
+\* with both repairs no route exists, so Safe says the property holds outright
+FixedClean == (FixUnlink /\ FixOwnList) => route = {}
 
 \* what Take hands out is open, unblocked and not chosen for expiry (by construction of TakeLoop; kept as a check of the model)
 TakeOK == (last.a = "Take" /\ last.r # 0) => /\ ~cs[last.r].closed /\ ~cs[last.r].blocked
